@@ -27,102 +27,124 @@ def _triangle(a2, b2, c2):
     return abs(a2 - b2) <= c2 <= a2 + b2 and (a2 + b2 + c2) % 2 == 0
 
 
-def synth_spec(rng: random.Random, *, nfs=None, formalism=None, helset=None, maxspin2=4):
-    """One random synthetic reaction spec (see ampl.make_reaction)."""
+def synth_spec(rng: random.Random, *, nfs=None, formalism=None, helset=None, maxspin2=4, ntop=None):
+    """One random synthetic reaction spec (see ampl.make_reaction).  With ntop = 2 the reaction has two
+    decay topologies over the same final state; intermediate states are named after their attached
+    final-state set, so the same resonance (sub-decay) can occur below different parents."""
     nfs = nfs or rng.choice([2, 3, 3, 3, 4])
     formalism = formalism or rng.choice(["helicity", "canonical-helicity"])
     helset = helset or rng.choice(["full", "full", "restricted", "nonproduct"])
-    can = rng.choice(topo.canonical(nfs))
-    vs = list(topo.variants(can, limit=12, rng=rng))
-    top = rng.choice(vs)
-    tree = topo.tree_of(top)
-    # particles: initial A, finals f<i>, one resonance name per intermediate edge (1-2 alternatives)
-    eids = sorted(top.edges)
-    init = next(iter(top.incoming_edge_ids))
-    finals = sorted(top.outgoing_edge_ids)
-    inter = sorted(top.intermediate_edge_ids)
+    if ntop is None:
+        ntop = 2 if (nfs >= 3 and rng.random() < 0.25) else 1
+    pool = []
+    for can in topo.canonical(nfs):
+        pool += list(topo.variants(can, limit=12, rng=rng, intermediates=False))
+    rng.shuffle(pool)
+    tops, seen = [], set()
+    for t in pool:
+        key = tuple(map(tuple, topo.tree_of(t)))
+        if key not in seen:
+            seen.add(key)
+            tops.append(t)
+        if len(tops) == ntop:
+            break
+    top0 = tops[0]
+    init = next(iter(top0.incoming_edge_ids))
+    finals = sorted(top0.outgoing_edge_ids)
     parts = {}
     half = rng.random() < 0.4  # fermionic final states
-    spins = {}
+    spins = {}  # keyed by attached final-state tuple
     for i in finals:
-        spins[i] = rng.choice([1, 1, 3] if half and i == finals[-1] else ([1] if half and i == finals[-2] else [0, 0, 2, 2, 4 if maxspin2 >= 4 else 2]))
-    # make total fermion number consistent: spin of a composite has the parity of the sum
-    def parity_of(eid):
-        return sum(spins[i] for i in topo.attached(top, eid)) % 2
-    for e in inter + [init]:
-        choices = [s for s in range(0, maxspin2 + 2) if s % 2 == parity_of(e) and s <= maxspin2 + 1]
-        spins[e] = rng.choice(choices)
-    massless = {i: (spins[i] > 0 and rng.random() < 0.2) for i in finals}
-    parts["A"] = {"spin2": spins[init], "parity": rng.choice([1, -1]), "mass": 3.1}
+        spins[(i,)] = rng.choice([1, 1, 3] if half and i == finals[-1] else ([1] if half and i == finals[-2] else [0, 0, 2, 2, 4 if maxspin2 >= 4 else 2]))
+    allsets = set()
+    for t in tops:
+        for e in t.edges:
+            allsets.add(topo.attached(t, e))
+    for S in sorted(allsets, key=len):
+        if len(S) == 1:
+            continue
+        par = sum(spins[(i,)] for i in S) % 2
+        spins[S] = rng.choice([x for x in range(0, maxspin2 + 2) if x % 2 == par])
+    root = tuple(finals)
+    massless = {i: (spins[(i,)] > 0 and rng.random() < 0.2) for i in finals}
+    parts["A"] = {"spin2": spins[root], "parity": rng.choice([1, -1]), "mass": 3.1}
     for i in finals:
-        parts[f"f{i}"] = {"spin2": spins[i], "parity": rng.choice([1, -1]), "mass": 0.0 if massless[i] else rng.choice([0.14, 0.5, 0.94])}
-    nalt = {e: rng.choice([1, 1, 2]) for e in inter}
-    for e in inter:
-        for a in range(nalt[e]):
-            parts[f"R{e}{'ab'[a]}"] = {"spin2": spins[e], "parity": rng.choice([1, -1]), "mass": 1.2 + 0.1 * a}
-    pname = {init: "A", **{i: f"f{i}" for i in finals}}
+        parts[f"f{i}"] = {"spin2": spins[(i,)], "parity": rng.choice([1, -1]), "mass": 0.0 if massless[i] else rng.choice([0.14, 0.5, 0.94])}
+    inter_sets = sorted(S for S in allsets if 1 < len(S) < len(root))
+    nalt = {S: rng.choice([1, 1, 2]) for S in inter_sets}
 
-    # nodes
-    node_edges = {}
-    for n in top.nodes:
-        pe = next(k for k, e in top.edges.items() if e.ending_node_id == n)
-        ch = sorted(k for k, e in top.edges.items() if e.originating_node_id == n)
-        node_edges[n] = (pe, ch)
-    eta_mode = {n: rng.choice([0, 0, 1, -1]) for n in top.nodes} if formalism == "helicity" else {n: 0 for n in top.nodes}
+    def rname(S, a):
+        return f"R{''.join(map(str, S))}{'ab'[a]}"
 
-    # helicity assignments
-    pools = {e: _projections(spins[e], massless.get(e, False)) for e in eids}
-    if helset == "restricted":
-        pools[init] = [v for v in pools[init] if v != 0] or pools[init]
-    combos = []
-    for vals in itertools.product(*[pools[e] for e in eids]):
-        h = dict(zip(eids, vals))
-        ok = all(abs(h[ch[0]] - h[ch[1]]) <= spins[pe] for pe, ch in node_edges.values())
-        if ok:
-            combos.append(h)
-    if helset == "nonproduct" and len(combos) > 2:
-        outer = [init] + finals
-        kill = rng.choice(combos)
-        combos = [h for h in combos if any(h[e] != kill[e] for e in outer)]
-    if len(combos) > 60:
-        # keep whole outer groups so that coherent sums stay complete
-        outer = [init] + finals
-        groups = {}
-        for h in combos:
-            groups.setdefault(tuple(h[e] for e in outer), []).append(h)
-        keys = list(groups)
-        rng.shuffle(keys)
-        combos = []
-        for k in keys:
-            if len(combos) + len(groups[k]) > 60 and combos:
-                break
-            combos += groups[k]
+    for S in inter_sets:
+        for a in range(nalt[S]):
+            parts[rname(S, a)] = {"spin2": spins[S], "parity": rng.choice([1, -1]), "mass": 1.2 + 0.1 * a}
+    eta_by_set = {S: rng.choice([0, 0, 1, -1]) for S in allsets if len(S) > 1} if formalism == "helicity" else {S: 0 for S in allsets}
+
     transitions = []
-    for h in combos:
-        for alts in itertools.product(*[range(nalt[e]) for e in inter]):
-            names = {**pname, **{e: f"R{e}{'ab'[a]}" for e, a in zip(inter, alts)}}
-            if formalism == "helicity":
-                nodes = {n: {"L2": NONE, "S2": NONE, "eta": eta_mode[n]} for n in top.nodes}
-                transitions.append({"topology": top, "states": {e: [names[e], h[e]] for e in eids}, "nodes": nodes})
-            else:
-                per_node = []
-                for n, (pe, ch) in node_edges.items():
-                    ls = []
-                    for S2 in range(abs(spins[ch[0]] - spins[ch[1]]), spins[ch[0]] + spins[ch[1]] + 1, 2):
-                        for L2 in range(0, 6, 2):
-                            if _triangle(L2, S2, spins[pe]) and abs(h[ch[0]] - h[ch[1]]) <= S2:
-                                ls.append((n, L2, S2))
-                    per_node.append(ls[:3])
-                if any(not x for x in per_node):
-                    continue
-                for sel in itertools.islice(itertools.product(*per_node), 4):
-                    nodes = {n: {"L2": L2, "S2": S2, "eta": 0} for n, L2, S2 in sel}
+    kill = None
+    for top in tops:
+        eids = sorted(top.edges)
+        att = {e: topo.attached(top, e) for e in eids}
+        inter = sorted(top.intermediate_edge_ids)
+        node_edges = {}
+        for n in top.nodes:
+            pe = next(k for k, e in top.edges.items() if e.ending_node_id == n)
+            ch = sorted(k for k, e in top.edges.items() if e.originating_node_id == n)
+            node_edges[n] = (pe, ch)
+        pools = {e: _projections(spins[att[e]], massless.get(e, False) if len(att[e]) == 1 else False) for e in eids}
+        if helset == "restricted":
+            pools[init] = [v for v in pools[init] if v != 0] or pools[init]
+        combos = []
+        for vals in itertools.product(*[pools[e] for e in eids]):
+            h = dict(zip(eids, vals))
+            if all(abs(h[ch[0]] - h[ch[1]]) <= spins[att[pe]] for pe, ch in node_edges.values()):
+                combos.append(h)
+        outer = [init] + finals
+        if helset == "nonproduct" and len(combos) > 2:
+            if kill is None:
+                k0 = rng.choice(combos)
+                kill = tuple(k0[e] for e in outer)
+            combos = [h for h in combos if tuple(h[e] for e in outer) != kill]
+        cap = 60 // len(tops)
+        if len(combos) > cap:
+            groups = {}
+            for h in combos:
+                groups.setdefault(tuple(h[e] for e in outer), []).append(h)
+            keys = sorted(groups)
+            random.Random(len(keys)).shuffle(keys)
+            combos = []
+            for k in keys:
+                if len(combos) + len(groups[k]) > cap and combos:
+                    break
+                combos += groups[k]
+        for h in combos:
+            for alts in itertools.product(*[range(nalt[att[e]]) for e in inter]):
+                names = {init: "A", **{i: f"f{i}" for i in finals}, **{e: rname(att[e], a) for e, a in zip(inter, alts)}}
+                if formalism == "helicity":
+                    nodes = {n: {"L2": NONE, "S2": NONE, "eta": eta_by_set[att[pe]]} for n, (pe, ch) in node_edges.items()}
                     transitions.append({"topology": top, "states": {e: [names[e], h[e]] for e in eids}, "nodes": nodes})
-    if not transitions:
+                else:
+                    per_node = []
+                    for n, (pe, ch) in node_edges.items():
+                        ls = []
+                        s1, s2, sp_ = spins[att[ch[0]]], spins[att[ch[1]]], spins[att[pe]]
+                        for S2 in range(abs(s1 - s2), s1 + s2 + 1, 2):
+                            for L2 in range(0, 6, 2):
+                                if _triangle(L2, S2, sp_) and abs(h[ch[0]] - h[ch[1]]) <= S2:
+                                    ls.append((n, L2, S2))
+                        per_node.append(ls[:3])
+                    if any(not x for x in per_node):
+                        continue
+                    for sel in itertools.islice(itertools.product(*per_node), 4):
+                        nodes = {n: {"L2": L2, "S2": S2, "eta": 0} for n, L2, S2 in sel}
+                        transitions.append({"topology": top, "states": {e: [names[e], h[e]] for e in eids}, "nodes": nodes})
+    if not transitions or len(transitions) > 120:
         return None
-    if len(transitions) > 120:
+    if len({id(t["topology"]) for t in transitions}) < len(tops):
         return None
-    return {"formalism": formalism, "particles": parts, "transitions": transitions, "meta": {"nfs": nfs, "helset": helset, "tree": tree}}
+    return {"formalism": formalism, "particles": parts, "transitions": transitions,
+            "meta": {"nfs": nfs, "helset": helset, "tree": topo.tree_of(top0), "ntop": len(tops)}}
 
 
 def configure(builder, cfg: dict):
@@ -173,17 +195,14 @@ def used_amplitude_keys(intensity):
             walk(e.expression, env2)
             return
         if isinstance(e, sp.Indexed):
-            pools = []
-            for i in e.indices:
-                if i.is_number:
-                    pools.append((i,))
-                elif i in env:
-                    pools.append(env[i])
-                else:
-                    bad.append(str(e))
-                    return
-            for combo in itertools.product(*pools):
-                k = _key_of_indexed(e.base[combo])
+            # indices are numbers, summation symbols, or expressions of them (axis-angle: -lambda)
+            syms = sorted({s for i in e.indices for s in i.free_symbols}, key=str)
+            if any(s not in env for s in syms):
+                bad.extend(str(s) for s in syms if s not in env)
+                return
+            for combo in itertools.product(*[env[s] for s in syms]):
+                sub = dict(zip(syms, combo))
+                k = _key_of_indexed(e.base[tuple(i.xreplace(sub) for i in e.indices)])
                 if k is not None:
                     keys.append(k)
             return
@@ -213,6 +232,7 @@ def closure_projection(model, cross_check=False) -> dict:
     for k in used:
         if str(k) in defined:
             free |= defined[str(k)][1].free_symbols
+    free |= {sp.Symbol(b) for b in bad}  # an index symbol no summation binds stays free in the expression
     if cross_check:
         full = set(model.expression.free_symbols)
         # undefined amplitude symbols stay in the expression as Indexed + base label
